@@ -1,6 +1,7 @@
 package checks
 
 import (
+	"math"
 	"encoding/json"
 	"fmt"
 	"reflect"
@@ -75,7 +76,14 @@ func stackOf(mws []limMw, h mocrelay.Handler) mocrelay.Handler {
 func concMsg(conc *abs.Conc, m limMsg, n int) mocrelay.ClientMsg {
 	sub := strings.Repeat("s", m.SubL)
 	mkEvent := func() *mocrelay.Event {
-		e := conc.Event(abs.Event{ID: fmt.Sprintf("lim%d", n), Author: "a", Kind: 1, TS: time.Now().Unix() - m.Age}, strings.Repeat("c", m.CLen))
+		ts := time.Now().Unix() - m.Age
+		switch m.Age { // Limits!Extreme: the two ends of the int64 range
+		case 2000000000:
+			ts = math.MinInt64 + 1
+		case -2000000000:
+			ts = math.MaxInt64
+		}
+		e := conc.Event(abs.Event{ID: fmt.Sprintf("lim%d", n), Author: "a", Kind: 1, TS: ts}, strings.Repeat("c", m.CLen))
 		e.Tags = []mocrelay.Tag{}
 		for i := 0; i < m.NTags; i++ {
 			e.Tags = append(e.Tags, mocrelay.Tag{"t", fmt.Sprint(i)})
